@@ -57,8 +57,14 @@ def s(lists, rng):
 
 
 def run(ctx):
-    prog = ctx.prog
     ctx.assume("numpy Generator.shuffle is a uniform permutation")
+    rule_P(ctx)
+
+
+def rule_P(ctx):
+    """P1-P4 as one rule object (imported by C01: the order of the conditional path is drawn from, and scored
+    with, this distribution)."""
+    prog = ctx.prog
     ctx.rule("P1", "sampler primitives pair with counting terms: shuffle(L) <-> log(len L)!, interleave <-> multinomial / binomial, sizes from the same collections", 3)
     ctx.rule("P2", "descendants first: own data appended after the interleaving of the children's orders; all children / roots; outliers interleaved once at top level", 2)
     ctx.rule("P3", "bridge shuffle: sentinel i repeated len(lists[i]) times, shuffled by the passed generator, elements popped from the front", 2)
